@@ -112,6 +112,7 @@ type PEvent struct {
 	Kind  string // call, defer, go, send, recv, store, rundefers, mapupdate, assume
 	Instr ssa.Instruction
 	Val   bool // for assume events
+	Depth int  // inlining depth of the frame that produced the event
 }
 
 type Path struct {
@@ -160,10 +161,16 @@ type PathEnum struct {
 	Fn *ssa.Function
 	// Event labels an instruction ("" = not recorded).
 	Event func(in ssa.Instruction) (label, kind string)
+	// EventR is like Event but also gets a resolver (phis, inlined parameters, tracked cells) valid at that point of the path.
+	EventR func(in ssa.Instruction, resolve func(ssa.Value) ssa.Value) (label, kind string)
 	// Name overrides the default atom/value key of a value ("" = default).
 	Name       func(v ssa.Value) string
 	MaxRevisit int
 	Budget     int
+	MaxDepth   int  // virtual inlining depth for small same-package helpers (default 2)
+	NoInline   bool // disable virtual inlining
+	Inlined    int  // helper activations inlined (statistics)
+	named      map[*ssa.Function]bool
 
 	Paths     []*Path
 	Truncated bool
@@ -176,15 +183,24 @@ type peState struct {
 	asg    map[string]bool
 	events []PEvent
 	blocks []int
-	visits map[int]int
+	visits map[*ssa.BasicBlock]int
+	env    map[ssa.Value]ssa.Value   // parameters of inlined helpers -> arguments; inlined calls -> returned value
+	tuple  map[ssa.Value][]ssa.Value // inlined calls with several results
 	pred   map[*ssa.BasicBlock]*ssa.BasicBlock // latest predecessor through which a block was entered
 	mem    map[*ssa.Alloc]ssa.Value            // last value stored into a local cell on this path (defer-spilled results, captured locals)
 }
 
 func (s *peState) clone() *peState {
-	c := &peState{asg: make(map[string]bool, len(s.asg)), visits: make(map[int]int, len(s.visits)), pred: make(map[*ssa.BasicBlock]*ssa.BasicBlock, len(s.pred)), mem: make(map[*ssa.Alloc]ssa.Value, len(s.mem))}
+	c := &peState{asg: make(map[string]bool, len(s.asg)), visits: make(map[*ssa.BasicBlock]int, len(s.visits)), pred: make(map[*ssa.BasicBlock]*ssa.BasicBlock, len(s.pred)), mem: make(map[*ssa.Alloc]ssa.Value, len(s.mem)),
+		env: make(map[ssa.Value]ssa.Value, len(s.env)), tuple: make(map[ssa.Value][]ssa.Value, len(s.tuple))}
 	for k, v := range s.mem {
 		c.mem[k] = v
+	}
+	for k, v := range s.env {
+		c.env[k] = v
+	}
+	for k, v := range s.tuple {
+		c.tuple[k] = v
 	}
 	for k, v := range s.asg {
 		c.asg[k] = v
@@ -200,59 +216,134 @@ func (s *peState) clone() *peState {
 	return c
 }
 
-func (pe *PathEnum) Run() *PathEnum {
-	if pe.Budget == 0 {
-		pe.Budget = 200000
+// peFrame is one activation in the (virtually inlined) call stack of a path.
+type peFrame struct {
+	fn       *ssa.Function
+	call     *ssa.Call // call site in the caller (nil for the root)
+	retBlock *ssa.BasicBlock
+	retIdx   int
+	parent   *peFrame
+	depth    int
+}
+
+func (pe *PathEnum) nameCalls(fn *ssa.Function, suffix string) {
+	if pe.named[fn] {
+		return
 	}
-	pe.callOrd = map[ssa.Value]string{}
-	pe.atomBlock = map[string]map[*ssa.BasicBlock]bool{}
-	// stable ordinals for call-like values per callee name
+	pe.named[fn] = true
 	count := map[string]int{}
-	for _, b := range pe.Fn.Blocks {
+	for _, b := range fn.Blocks {
 		for _, in := range b.Instrs {
 			if c, ok := in.(*ssa.Call); ok {
 				n := shortCallee(c.Common())
 				count[n]++
 				if count[n] == 1 {
-					pe.callOrd[c] = n
+					pe.callOrd[c] = n + suffix
 				} else {
-					pe.callOrd[c] = fmt.Sprintf("%s~%d", n, count[n])
+					pe.callOrd[c] = fmt.Sprintf("%s~%d%s", n, count[n], suffix)
 				}
 			}
 		}
 	}
+}
+
+func (pe *PathEnum) Run() *PathEnum {
+	if pe.Budget == 0 {
+		pe.Budget = 200000
+	}
+	if pe.MaxDepth == 0 {
+		pe.MaxDepth = 2
+	}
+	pe.callOrd = map[ssa.Value]string{}
+	pe.named = map[*ssa.Function]bool{}
+	pe.atomBlock = map[string]map[*ssa.BasicBlock]bool{}
+	pe.nameCalls(pe.Fn, "")
 	if len(pe.Fn.Blocks) == 0 {
 		return pe
 	}
-	st := &peState{asg: map[string]bool{}, visits: map[int]int{}, pred: map[*ssa.BasicBlock]*ssa.BasicBlock{}, mem: map[*ssa.Alloc]ssa.Value{}}
-	pe.walk(pe.Fn.Blocks[0], nil, st)
+	st := &peState{asg: map[string]bool{}, visits: map[*ssa.BasicBlock]int{}, pred: map[*ssa.BasicBlock]*ssa.BasicBlock{}, mem: map[*ssa.Alloc]ssa.Value{},
+		env: map[ssa.Value]ssa.Value{}, tuple: map[ssa.Value][]ssa.Value{}}
+	pe.walk(&peFrame{fn: pe.Fn}, pe.Fn.Blocks[0], 0, nil, st)
 	return pe
 }
 
-func (pe *PathEnum) walk(b *ssa.BasicBlock, from *ssa.BasicBlock, st *peState) {
+// inlinable: a small declared function of the same package whose call is not itself an event of the rule.
+func (pe *PathEnum) inlinable(fr *peFrame, call *ssa.Call) *ssa.Function {
+	if pe.NoInline || fr.depth >= pe.MaxDepth {
+		return nil
+	}
+	f := call.Common().StaticCallee()
+	if f == nil || len(f.Blocks) == 0 || len(f.Blocks) > 30 || f.Parent() != nil || f.Pkg == nil || pe.Fn.Package() == nil || f.Pkg != pe.Fn.Package() {
+		return nil
+	}
+	if pe.Event != nil {
+		if l, _ := pe.Event(call); l != "" {
+			return nil
+		}
+	}
+	if pe.EventR != nil {
+		if l, _ := pe.EventR(call, func(v ssa.Value) ssa.Value { return v }); l != "" {
+			return nil
+		}
+	}
+	for p := fr; p != nil; p = p.parent {
+		if p.fn == f {
+			return nil // recursion
+		}
+	}
+	return f
+}
+
+func (pe *PathEnum) walk(fr *peFrame, b *ssa.BasicBlock, idx int, from *ssa.BasicBlock, st *peState) {
 	if pe.Truncated {
 		return
 	}
-	if st.visits[b.Index] > pe.MaxRevisit {
-		return // path abandoned: loop bound reached
-	}
-	st.visits[b.Index]++
-	st.blocks = append(st.blocks, b.Index)
-	if from != nil {
-		st.pred[b] = from
-	}
-	// results produced in this block are new values on re-entry
-	if st.visits[b.Index] > 1 {
-		for a, blks := range pe.atomBlock {
-			if blks[b] {
-				delete(st.asg, a)
+	if idx == 0 {
+		if st.visits[b] > pe.MaxRevisit {
+			return // path abandoned: loop bound reached
+		}
+		st.visits[b]++
+		if fr.depth == 0 {
+			st.blocks = append(st.blocks, b.Index)
+		}
+		if from != nil {
+			st.pred[b] = from
+		}
+		// results produced in this block are new values on re-entry
+		if st.visits[b] > 1 {
+			for a, blks := range pe.atomBlock {
+				if blks[b] {
+					delete(st.asg, a)
+				}
 			}
 		}
 	}
-	for _, in := range b.Instrs {
+	for i := idx; i < len(b.Instrs); i++ {
+		in := b.Instrs[i]
+		if call, ok := in.(*ssa.Call); ok {
+			if f := pe.inlinable(fr, call); f != nil {
+				pe.nameCalls(f, "@"+f.Name())
+				pe.Inlined++
+				for j, p := range f.Params {
+					if j < len(call.Common().Args) {
+						st.env[p] = pe.resolve(call.Common().Args[j], st)
+					}
+				}
+				for _, fb := range f.Blocks {
+					delete(st.visits, fb)
+				}
+				pe.walk(&peFrame{fn: f, call: call, retBlock: b, retIdx: i + 1, parent: fr, depth: fr.depth + 1}, f.Blocks[0], 0, nil, st)
+				return
+			}
+		}
 		if pe.Event != nil {
 			if l, k := pe.Event(in); l != "" {
-				st.events = append(st.events, PEvent{Label: l, Kind: k, Instr: in})
+				st.events = append(st.events, PEvent{Label: l, Kind: k, Instr: in, Depth: fr.depth})
+			}
+		}
+		if pe.EventR != nil {
+			if l, k := pe.EventR(in, func(v ssa.Value) ssa.Value { return pe.resolve(v, st) }); l != "" {
+				st.events = append(st.events, PEvent{Label: l, Kind: k, Instr: in, Depth: fr.depth})
 			}
 		}
 		switch x := in.(type) {
@@ -261,6 +352,20 @@ func (pe *PathEnum) walk(b *ssa.BasicBlock, from *ssa.BasicBlock, st *peState) {
 				st.mem[a] = pe.resolve(x.Val, st)
 			}
 		case *ssa.Return:
+			if fr.parent != nil {
+				// return from an inlined helper: bind the call's value(s) and resume the caller
+				var vals []ssa.Value
+				for _, r := range x.Results {
+					vals = append(vals, pe.resolve(r, st))
+				}
+				if len(vals) == 1 {
+					st.env[fr.call] = vals[0]
+				} else if len(vals) > 1 {
+					st.tuple[fr.call] = vals
+				}
+				pe.walk(fr.parent, fr.retBlock, fr.retIdx, nil, st)
+				return
+			}
 			p := &Path{Asg: st.asg, Events: st.events, Ret: x, Blocks: st.blocks}
 			for _, r := range x.Results {
 				p.Out = append(p.Out, pe.classify(r, st))
@@ -276,23 +381,32 @@ func (pe *PathEnum) walk(b *ssa.BasicBlock, from *ssa.BasicBlock, st *peState) {
 			pe.emit(&Path{Asg: st.asg, Events: st.events, Panic: true, Blocks: st.blocks})
 			return
 		case *ssa.If:
-			pe.branch(b, pe.cond(x.Cond, st), st)
+			pe.branch(fr, b, pe.cond(x.Cond, st), st)
 			return
 		case *ssa.Jump:
-			pe.walk(b.Succs[0], b, st)
+			pe.walk(fr, b.Succs[0], 0, b, st)
 			return
 		}
 	}
 	// blocks ending in other terminators (e.g. unreachable)
 	for _, s := range b.Succs {
-		pe.walk(s, b, st.clone())
+		pe.walk(fr, s, 0, b, st.clone())
 	}
 }
 
 // resolve follows phis (along the path) and loads of tracked local cells.
 func (pe *PathEnum) resolve(v ssa.Value, st *peState) ssa.Value {
 	for i := 0; i < 20 && st != nil; i++ {
+		if m, ok := st.env[v]; ok && m != v {
+			v = m
+			continue
+		}
 		switch x := v.(type) {
+		case *ssa.Extract:
+			if t, ok := st.tuple[x.Tuple]; ok && x.Index < len(t) {
+				v = t[x.Index]
+				continue
+			}
 		case *ssa.Phi:
 			if e := pe.phiEdge(x, st); e != nil && e != ssa.Value(x) {
 				v = e
@@ -320,13 +434,13 @@ func (pe *PathEnum) emit(p *Path) {
 	}
 }
 
-func (pe *PathEnum) branch(b *ssa.BasicBlock, f *BX, st *peState) {
+func (pe *PathEnum) branch(fr *peFrame, b *ssa.BasicBlock, f *BX, st *peState) {
 	v, known, unk := f.Eval(st.asg)
 	if known {
 		if v {
-			pe.walk(b.Succs[0], b, st)
+			pe.walk(fr, b.Succs[0], 0, b, st)
 		} else {
-			pe.walk(b.Succs[1], b, st)
+			pe.walk(fr, b.Succs[1], 0, b, st)
 		}
 		return
 	}
@@ -343,7 +457,7 @@ func (pe *PathEnum) branch(b *ssa.BasicBlock, f *BX, st *peState) {
 				c.asg["nil("+k+")"] = false
 			}
 		}
-		pe.branch(b, f, c)
+		pe.branch(fr, b, f, c)
 	}
 }
 
@@ -403,12 +517,16 @@ func (pe *PathEnum) cond(v ssa.Value, st *peState) *BX {
 	case *ssa.BinOp:
 		switch x.Op {
 		case token.EQL, token.NEQ:
-			a, b := x.X, x.Y
+			a, b := pe.resolve(x.X, st), pe.resolve(x.Y, st)
 			if isNilConst(a) {
 				a, b = b, a
 			}
 			var f *BX
 			switch {
+			case isNilConst(b) && isNilConst(a):
+				f = bxConst(true)
+			case isNilConst(b) && knownNonNil(a):
+				f = bxConst(false)
 			case isNilConst(b):
 				f = pe.atom("nil("+pe.key(a, st)+")", a)
 			case isBool(a.Type()):
@@ -476,6 +594,20 @@ func (pe *PathEnum) phiEdge(x *ssa.Phi, st *peState) ssa.Value {
 		}
 	}
 	return nil
+}
+
+// knownNonNil: values that are non-nil by construction.
+func knownNonNil(v ssa.Value) bool {
+	switch x := v.(type) {
+	case *ssa.MakeInterface:
+		if _, isAlloc := x.X.(*ssa.Alloc); isAlloc {
+			return true
+		}
+		return isNamedStruct(x.X.Type())
+	case *ssa.Alloc, *ssa.MakeClosure, *ssa.Function, *ssa.MakeMap, *ssa.MakeChan, *ssa.MakeSlice:
+		return true
+	}
+	return false
 }
 
 func isNilConst(v ssa.Value) bool {
@@ -564,6 +696,13 @@ func (pe *PathEnum) key(v ssa.Value, st *peState) string {
 	case *ssa.UnOp:
 		if x.Op == token.MUL {
 			if fa, ok := x.X.(*ssa.FieldAddr); ok {
+				// a field of a value obtained from a map lookup is keyed by that lookup (identity matters)
+				if base, ok := pe.resolve(fa.X, st).(*ssa.Extract); ok {
+					if _, isLookup := base.Tuple.(*ssa.Lookup); isLookup {
+						fk := fieldKeySSA(fa.X.Type(), fa.Field)
+						return pe.key(base, st) + fk[strings.LastIndex(fk, "."):]
+					}
+				}
 				return fieldKeySSA(fa.X.Type(), fa.Field)
 			}
 			return "*" + pe.key(x.X, st)
